@@ -670,22 +670,40 @@ class AnchorLost(Exception):
 # A3 provenance
 
 PASS_THROUGH = [
-    # callee (generics stripped) -> index of the argument whose origin flows to the result
-    ("core::ops::Deref::deref", 0), ("core::ops::DerefMut::deref_mut", 0),
-    ("core::convert::Into::into", 0), ("core::convert::From::from", 0),
-    ("core::clone::Clone::clone", 0), ("core::borrow::BorrowMut::borrow_mut", 0), ("core::borrow::Borrow::borrow", 0),
-    ("core::convert::AsRef::as_ref", 0), ("core::convert::AsMut::as_mut", 0),
-    ("bevy_ecs::change_detection::Mut::into_inner", 0), ("bevy_ecs::change_detection::ResMut::into_inner", 0),
-    ("bevy_ecs::change_detection::Res::into_inner", 0),
-    ("bevy_ecs::system::In::into_inner", 0),
-    ("core::iter::IntoIterator::into_iter", 0),
-    ("core::ops::Try::branch", 0),
-    ("core::option::Option::as_mut", 0), ("core::option::Option::as_ref", 0),
-    ("core::option::Option::unwrap", 0), ("core::result::Result::unwrap", 0),
-    ("core::result::Result::ok", 0),
-    ("core::option::Option::expect", 0), ("core::result::Result::expect", 0),
-    ("core::option::Option::unwrap_or_default", 0), ("core::option::Option::unwrap_or", 0),
+    # (last two path segments of the callee or of its trait method, index of the argument whose origin flows to the result)
+    ("Deref::deref", 0), ("DerefMut::deref_mut", 0), ("Into::into", 0), ("From::from", 0), ("Clone::clone", 0),
+    ("BorrowMut::borrow_mut", 0), ("Borrow::borrow", 0), ("AsRef::as_ref", 0), ("AsMut::as_mut", 0),
+    ("Mut::into_inner", 0), ("ResMut::into_inner", 0), ("Res::into_inner", 0), ("In::into_inner", 0),
+    ("IntoIterator::into_iter", 0), ("Try::branch", 0),
+    ("Option::as_mut", 0), ("Option::as_ref", 0), ("Option::unwrap", 0), ("Result::unwrap", 0), ("Result::ok", 0),
+    ("Option::expect", 0), ("Result::expect", 0), ("Option::unwrap_or_default", 0), ("Option::unwrap_or", 0),
+    ("Option::as_deref", 0), ("Option::as_deref_mut", 0), ("Option::copied", 0), ("Option::cloned", 0),
 ]
+
+
+def tail2(path):
+    """last two segments of a generics-stripped path; `<X as a::Trait>::m` -> `Trait::m`"""
+    sp = strip_generics(path)
+    m = re.match(r"^<(.+) as ([^>]+?)>::(\w+)$", sp)
+    if m:
+        return m.group(2).split("<")[0].split("::")[-1] + "::" + m.group(3)
+    parts = sp.split("::")
+    return "::".join(parts[-2:])
+
+
+def pass_through_index(fr):
+    """argument index whose origin flows to the result, or None"""
+    names = {tail2(fr["path"])}
+    if fr.get("resolved"):
+        names.add(tail2(fr["resolved"]))
+    if fr.get("trait"):
+        names.add(fr["trait"].split("::")[-1] + "::" + strip_generics(fr["path"]).split("::")[-1])
+    if fr.get("impl_trait"):
+        names.add(fr["impl_trait"].split("::")[-1] + "::" + strip_generics(fr["path"]).split("::")[-1])
+    for name, idx in PASS_THROUGH:
+        if name in names:
+            return idx
+    return None
 
 
 class Origin:
@@ -773,12 +791,11 @@ def place_origins(body, p, _seen=None, depth=0):
             fr = op_fn(t["func"])
             passed = False
             if fr is not None:
-                for name, idx in PASS_THROUGH:
-                    if callee_matches(fr, name) and idx < len(t["args"]):
-                        for o in origins(body, t["args"][idx], _seen, depth + 1):
-                            out.add(_extend(o, proj))
-                        passed = True
-                        break
+                idx = pass_through_index(fr)
+                if idx is not None and idx < len(t["args"]):
+                    for o in origins(body, t["args"][idx], _seen, depth + 1):
+                        out.add(_extend(o, proj))
+                    passed = True
             if not passed:
                 out.add(("call", d[1]) + proj)
         elif d[0] in ("partial", "partialcall"):
